@@ -7,8 +7,14 @@ EXTENDS DidStore, Json
 MCDIDs == {"A", "B", "C", "D1", "D2", "D3", "D4", "D5", "D6", "D7"}
 MCRank == [A |-> 1, B |-> 2, C |-> 3, D1 |-> 4, D2 |-> 5, D3 |-> 6, D4 |-> 7, D5 |-> 8, D6 |-> 9, D7 |-> 10]
 \* kX is the key the DID X was generated from; k2, k3 belong to nobody
-MCThumb == [kA |-> "A", kB |-> "B", kC |-> "C", k2 |-> "", k3 |-> "", kD1 |-> "D1", kD2 |-> "D2", kD3 |-> "D3",
+\* k4..k8: keys a document lists WITHOUT authorising them for capability invocation (see MCKeyUse)
+MCThumb == [kA |-> "A", kB |-> "B", kC |-> "C", k2 |-> "", k3 |-> "", k4 |-> "", k5 |-> "", k6 |-> "", k7 |-> "", k8 |-> "", kD1 |-> "D1", kD2 |-> "D2", kD3 |-> "D3",
             kD4 |-> "D4", kD5 |-> "D5", kD6 |-> "D6", kD7 |-> "D7"]
+
+\* under which relationship a key that is in `keys` but not in `capInv` is listed ("" = in verificationMethod only; keys without
+\* an entry: assertionMethod). Keys in capInv are listed under capabilityInvocation and assertionMethod, as a Nuts node does.
+MCKeyUse == [k4 |-> "assertionMethod", k5 |-> "authentication", k6 |-> "keyAgreement", k7 |-> "capabilityDelegation", k8 |-> ""]
+Listed == {"k4", "k5", "k6", "k7", "k8"}
 
 S(id, val) == [id |-> id, val |-> val]
 D(id, keys, capInv, ctrl, svcs) == [id |-> id, keys |-> keys, capInv |-> capInv, ctrl |-> ctrl, svcs |-> svcs]
@@ -31,7 +37,7 @@ MCDocs == [
   Ef  |-> D("B", {"kB", "k2"}, {"kB"}, <<"B", "C">>, {}),
   \* ---- ambassador (C09)
   A0  |-> D("A", {"kA"}, {"kA"}, <<>>, {}),
-  A1  |-> D("A", {"kA"}, {"kA"}, <<>>, {S("s1", "x")}),
+  A1  |-> D("A", {"kA"} \cup Listed, {"kA"}, <<>>, {S("s1", "x")}),             \* lists k4..k8 outside capabilityInvocation
   A2  |-> D("A", {"kA", "k2"}, {"kA", "k2"}, <<>>, {S("s1", "x")}),          \* adds k2
   A3  |-> D("A", {"kA"}, {"kA"}, <<>>, {S("s1", "x"), S("s2", "y")}),        \* removes k2
   A2b |-> D("A", {"kA", "k2"}, {"kA", "k2"}, <<>>, {S("s3", "v")}),
@@ -39,10 +45,12 @@ MCDocs == [
   Ab1 |-> D("A", {"kA"}, {"kA"}, <<"B">>, {S("s1", "x")}),
   Ab2 |-> D("A", {"kA"}, {"kA"}, <<"B">>, {S("s2", "y")}),
   Ax  |-> D("A", {"kA", "k3"}, {"kA", "k3"}, <<>>, {}),                      \* the attacker's key k3 added
+  At4 |-> D("A", {"k4"}, {"k4"}, <<>>, {}), At5 |-> D("A", {"k5"}, {"k5"}, <<>>, {}), At6 |-> D("A", {"k6"}, {"k6"}, <<>>, {}),
+  At7 |-> D("A", {"k7"}, {"k7"}, <<>>, {}), At8 |-> D("A", {"k8"}, {"k8"}, <<>>, {}),   \* take-over: the signer becomes the only key
   Akb |-> D("A", {"kA", "kB"}, {"kA", "kB"}, <<>>, {}),                      \* B's key listed as a key of A
   Ad  |-> D("A", {}, {}, <<>>, {}),
   Ar  |-> D("A", {"kA"}, {"kA"}, <<>>, {S("s4", "r")}),                      \* attempt to revive
-  B0  |-> D("B", {"kB"}, {"kB"}, <<>>, {}),
+  B0  |-> D("B", {"kB"} \cup Listed, {"kB"}, <<>>, {}),                         \* the controller-to-be lists them, too
   B2  |-> D("B", {"kB", "k2"}, {"kB", "k2"}, <<>>, {}),
   B3  |-> D("B", {"kB"}, {"kB"}, <<>>, {S("s1", "z")}),
   Bd  |-> D("B", {}, {}, <<>>, {}),
@@ -122,6 +130,13 @@ MCT == [
   uB2   |-> U("B", 1, 27, <<"cB">>, "B2", "kB", "B", "kB"),                      \* B lists k2
   uB3   |-> U("B", 2, 28, <<"uB2">>, "B3", "kB", "B", "kB"),                     \* B removes k2
   uAbK2 |-> U("A", 3, 29, <<"uAb", "uB3">>, "Ab2", "k2", "B", "k2"),             \* removed key of the controller
+  \* take-over attempts by a key the succeeded version (resp. its controller) LISTS but does not authorise for capability invocation
+  uAt4  |-> U("A", 2, 31, <<"uA1">>, "At4", "k4", "A", "k4"), uAt5  |-> U("A", 2, 32, <<"uA1">>, "At5", "k5", "A", "k5"),
+  uAt6  |-> U("A", 2, 33, <<"uA1">>, "At6", "k6", "A", "k6"), uAt7  |-> U("A", 2, 34, <<"uA1">>, "At7", "k7", "A", "k7"),
+  uAt8  |-> U("A", 2, 35, <<"uA1">>, "At8", "k8", "A", "k8"),
+  uAbT4 |-> U("A", 2, 36, <<"uAb", "cB">>, "At4", "k4", "B", "k4"), uAbT5 |-> U("A", 2, 37, <<"uAb", "cB">>, "At5", "k5", "B", "k5"),
+  uAbT6 |-> U("A", 2, 38, <<"uAb", "cB">>, "At6", "k6", "B", "k6"), uAbT7 |-> U("A", 2, 39, <<"uAb", "cB">>, "At7", "k7", "B", "k7"),
+  uAbT8 |-> U("A", 2, 40, <<"uAb", "cB">>, "At8", "k8", "B", "k8"),
   \* ---- chain: D1 controlled by D2 controlled by ... D7
   h1 |-> Cr("D1", 1, "H1", "kD1"), h2 |-> Cr("D2", 2, "H2", "kD2"), h3 |-> Cr("D3", 3, "H3", "kD3"), h4 |-> Cr("D4", 4, "H4", "kD4"),
   h5 |-> Cr("D5", 5, "H5", "kD5"), h6 |-> Cr("D6", 6, "H6", "kD6"), h7 |-> Cr("D7", 7, "H7", "kD7"),
@@ -165,12 +180,23 @@ MCScen == [
   S28 |-> Sc({"c", "u1", "fb", "d2", "x3"}, 0)
 ]
 
+\* ---- defect classes of documents. Every class that concerns a verification method is crossed with the KIND of method
+\* (type x key material) it is applied to: "<class>@<kind>"; the plain class is the JsonWebKey2020 / EC method a Nuts node produces.
+BaseDefects == {"vm-id-no-fragment", "vm-id-foreign-prefix", "vm-id-duplicate", "vm-id-not-thumbprint", "vm-id-extended-did", "vm-id-kid-not-thumbprint", "vm-null", "vm-no-key", "vm-no-type", "vm-no-controller", "svc-id-no-fragment", "svc-id-foreign-prefix", "svc-id-extended-did", "svc-id-did-with-path", "svc-id-duplicate", "svc-type-duplicate", "svc-no-type", "svc-no-endpoint", "no-context", "capinv-embedded-foreign-id", "capinv-embedded-not-thumbprint", "capinv-unresolvable-ref", "not-json"}
+VMDefects == {"vm-id-no-fragment", "vm-id-foreign-prefix", "vm-id-duplicate", "vm-id-not-thumbprint", "vm-id-extended-did",
+              "vm-id-kid-not-thumbprint", "vm-no-key", "vm-no-controller"}
+VMKinds == {"EcdsaSecp256k1VerificationKey2019", "Ed25519VerificationKey2018", "Ed25519VerificationKey2018:base58",
+            "Ed25519VerificationKey2020:multibase", "RsaVerificationKey2018", "UnknownKey2030", "JsonWebKey2020:okp", "JsonWebKey2020:rsa"}
+MCDefects == BaseDefects \cup {d \o "@" \o k : d \in VMDefects, k \in VMKinds}
+\* the quick model run crosses with three kinds only (the model treats the classes alike; traces and the driver use all of them)
+QuickDefects == BaseDefects \cup {d \o "@" \o k : d \in VMDefects, k \in {"EcdsaSecp256k1VerificationKey2019", "Ed25519VerificationKey2018:base58", "JsonWebKey2020:okp"}}
 Defective(df) == df # "none"
 \* (the re-creation cA2 is independent of everything else and doubles the state space: it is part of QuickTx only)
 MainTx == {"cA", "cB", "cC", "cAx", "uA1", "uAx", "uAxB", "uAkB", "uAkid", "uA2", "uA3", "uAk2", "uAk2o", "uAb", "uAbB", "uAbA",
-           "dB", "uAbBd", "uBc", "dC", "uAbBc", "uBa", "uAbBa", "dA", "uAr", "uAnf", "uB2", "uB3", "uAbK2"}
+           "dB", "uAbBd", "uBc", "dC", "uAbBc", "uBa", "uAbBa", "dA", "uAr", "uAnf", "uB2", "uB3", "uAbK2",
+           "uAt4", "uAt5", "uAt6", "uAt7", "uAt8", "uAbT4", "uAbT5", "uAbT6", "uAbT7", "uAbT8"}
 QuickTx == {"cA", "cB", "cAx", "cA2", "uA1", "uAx", "uAxB", "uAkB", "uAkid", "uA2", "uA3", "uAk2", "uAk2o", "uAb", "uAbB", "uAbA", "dB",
-            "uAbBd", "dA", "uAr", "uAnf"}
+            "uAbBd", "dA", "uAr", "uAnf", "uAt4", "uAt5", "uAt6", "uAt7", "uAt8", "uAbT4", "uAbT8"}
 
 ChainTx == {"h1", "h2", "h3", "h4", "h5", "h6", "h7", "g1", "g1s", "g2", "g3", "g4", "h7d"}
 
@@ -179,7 +205,9 @@ AllTx == MainTx \cup QuickTx \cup ChainTx
 \* clocks respect the prevs relation (premise of ConflictResolvedByJoin), prevs name known transactions
 ASSUME \A e \in DOMAIN MCT : \A p \in Range(MCT[e].prevs) : p \in DOMAIN MCT /\ MCT[p].lc < MCT[e].lc
 ASSUME \A e \in DOMAIN MCT : (MCT[e].doc \in DOMAIN MCDocs /\ MCDocs[MCT[e].doc].id = MCT[e].did) \/ Print(<<"bad tx", e>>, FALSE)
-ASSUME PrintT(ToJson([tables |-> [T |-> MCT, Docs |-> MCDocs, Scen |-> MCScen, Thumb |-> MCThumb, Rank |-> MCRank]]))
+ASSUME VMDefects \subseteq BaseDefects
+ASSUME PrintT(ToJson([tables |-> [T |-> MCT, Docs |-> MCDocs, Scen |-> MCScen, Thumb |-> MCThumb, Rank |-> MCRank, KeyUse |-> MCKeyUse,
+                                 Defects |-> MCDefects, VMKinds |-> VMKinds]]))
 
 \* ---- behaviour generation -------------------------------------------------------------------------------
 StoreDone == Mode = "store" /\ arrived = Scen[sc].ev /\ dups = Scen[sc].dup + ExtraDup
